@@ -2,6 +2,8 @@ SPECIFICATION Spec
 INVARIANT C15_Schedule
 INVARIANT C15_HeaderOnce
 INVARIANT C15_ExactSteps
+INVARIANT C15_AbstractionInv
+PROPERTY C15_AbstractionStep
 INVARIANT C15_NeverTwice
 INVARIANT C15_SplitInvariant
 POSTCONDITION Export
